@@ -36,6 +36,9 @@ LEAVES = ['domain_id:%(project_id)s', 'project_id:%(nested.after)s', 'domain_id:
 
 def gen_policy(rng):
     rules = {}
+    if rng.random() < 0.25:
+        rules.update({'adm:yes': 'is_admin:True', 'adm:no': 'not is_admin:True', 'adm:false': 'is_admin:False',
+                      'adm:alias': 'rule:adm:yes'})
     for i in range(rng.randint(1, 6)):
         name = rng.choice(['svc:op%d' % i, 'compute:get%d' % i, 'plainname%d' % i,
                            # names whose plain string order differs from any order by components
